@@ -224,10 +224,11 @@ func genC17(r *kit.RNG) *C17Scenario {
 		if a.IsUnspecified() {
 			a = netip.MustParseAddr("10.0.0.9")
 		}
-		if r.Chance(0.08) {
-			// a source on this host: other middlewares exempt it from their limits, the access
+		if r.Chance(0.12) {
+			// a source on this host (127.0.0.255 is the address sdns stamps on its own
+			// sub-queries, there with port 0; a client can own it with a real port): other middlewares exempt it from their limits, the access
 			// list has no such exemption
-			a = netip.MustParseAddr(kit.Pick(r, []string{"127.0.0.1", "127.0.0.53", "127.8.9.10", "::1", "::ffff:127.0.0.1"}))
+			a = netip.MustParseAddr(kit.Pick(r, []string{"127.0.0.1", "127.0.0.53", "127.8.9.10", "::1", "::ffff:127.0.0.1", "127.0.0.255", "127.0.0.255", "::ffff:127.0.0.255", "127.0.0.254"}))
 		}
 		op := C17Op{Client: a.String(), TCP: r.Chance(0.3), Name: kit.Pick(r, c17Names), Type: kit.Pick(r, []uint16{dns.TypeA, dns.TypeA, dns.TypeA, dns.TypeAAAA, dns.TypeTXT}),
 			GapMs: kit.Pick(r, []int{1500, 2500, 4000})}
